@@ -267,6 +267,7 @@ fn lsp_eval(s: &lsp::Session, h: &lsp::History) -> LspEval {
                 ("responses_error", st.error_responses),
                 ("responses_cancelled", st.cancelled_responses),
                 ("reference_sessions", st.reference_sessions),
+                ("error_responses_compared_with_reference", st.errors_compared),
                 ("oracle_unstable", st.oracle_unstable),
                 ("diagnostics_compared", st.diagnostics_compared),
             ] {
